@@ -702,7 +702,14 @@ pub fn check_ctor(c: &CtorCase, st: &mut Stats) -> CheckResult {
             (a.len(), a.max_len(), b.len(), b.is_full(), f.len())
         });
         match (r, c.cap > 0) {
-            (Ok(t), true) => ensure!(t == (0, c.cap, c.cap, true, c.cap), "from/from_full over {} elements: {:?}", c.cap, t),
+            (Ok(t), true) => {
+                ensure!(t == (0, c.cap, c.cap, true, c.cap), "from/from_full over {} elements: {:?}", c.cap, t);
+                // FromIterator: the collected storage becomes an empty bounded buffer / a full fixed one, oldest first
+                let b: Bounded<Vec<u32>> = (0..c.cap as u32).collect();
+                ensure!(b.len() == 0 && b.max_len() == c.cap && b.iter().next().is_none(), "Bounded::from_iter over {} items: len {} max_len {}", c.cap, b.len(), b.max_len());
+                let f: Fixed<Vec<u32>> = (0..c.cap as u32).collect();
+                ensure!(f.len() == c.cap && f.iter().copied().eq(0..c.cap as u32) && *f.get(c.cap) == 0, "Fixed::from_iter over {} items is not the items oldest-first", c.cap);
+            }
             (Err(_), false) => {}
             (Ok(_), false) => return Err("from / from_full accepted empty storage".into()),
             (Err(p), true) => return Err(format!("from / from_full rejected storage of {} elements: {}", c.cap, p)),
